@@ -138,7 +138,7 @@ impl Property for C01 {
         } else {
             gen::trace("C01", seed, index, &p)
         };
-        if t.bytes_total() <= gen::bound(48) && t.bytes_total() > 0 && r.chance(1, 4) {
+        if t.bytes_total() <= gen::bound(48) && t.bytes_total() > 0 && t.steps.len() <= gen::bound(80) && r.chance(1, 4) {
             t.extra = vec![1]; // enumerate truncation at every byte
         }
         t
